@@ -25,7 +25,7 @@ TNext == /\ l <= Len(Trace)
               [] Ev.e = "ret"    -> Ret(Ev.op, Ev.ok, Ev.online)
               [] Ev.e = "toggle" -> Toggle(Ev.m, Ev.on)
               [] Ev.e = "begin"  -> Begin(Ev.m, Ev.cb)
-              [] Ev.e = "end"    -> End(Ev.m, Ev.cb, Ev.ok)
+              [] Ev.e = "end"    -> End(Ev.m, Ev.cb, Ev.ok, Ev.how = "panic")
               [] Ev.e = "note"   -> UNCHANGED avars
               [] OTHER           -> FALSE
 Spec == TInit /\ [][TNext]_tvars
